@@ -179,6 +179,35 @@ func in(needle interface{}, array interface{}) bool {
 	panic(fmt.Sprintf(`operator "in"" not defined on %T`, array))
 }
 
+// equalSequences compares two arrays (or slices) element by element with the
+// equality of the language, whatever Go types hold the elements: a range is a
+// []int, an array literal a []interface{}. ok is false if a or b is not an array.
+func equalSequences(a, b interface{}) (eq bool, ok bool) {
+	if a == nil || b == nil {
+		return false, false
+	}
+	va, vb := reflect.ValueOf(a), reflect.ValueOf(b)
+	if va.Kind() != reflect.Array && va.Kind() != reflect.Slice {
+		return false, false
+	}
+	if vb.Kind() != reflect.Array && vb.Kind() != reflect.Slice {
+		return false, false
+	}
+	if va.Len() != vb.Len() {
+		return false, true
+	}
+	for i := 0; i < va.Len(); i++ {
+		x, y := va.Index(i), vb.Index(i)
+		if !x.CanInterface() || !y.CanInterface() {
+			return false, false
+		}
+		if !equal(x.Interface(), y.Interface()).(bool) {
+			return false, true
+		}
+	}
+	return true, true
+}
+
 func length(a interface{}) int {
 	v := reflect.ValueOf(a)
 	switch v.Kind() {
